@@ -73,3 +73,32 @@ Proof.
   split. { repeat constructor; try (vm_compute; reflexivity); try (vm_compute; discriminate); eexists; vm_compute; reflexivity. }
   vm_compute. reflexivity.
 Qed.
+
+(* ---- the real LZX port (Model/Lzx.v: decompress = lzxd_decompress) with the output length known from the start (CHM, OAB, DELTA; 0 =
+        never known).  A decoder that has handed out a bytes and is asked for b more does exactly what a decoder asked for a + b at
+        once does: same bytes written, same status, same decoder state afterwards.  `Core L` is the frame / offset bookkeeping
+        invariant of Proofs/LzxSafe.v: it holds after lzxd_init and after every call (C08_lzx_invariant_kept), so the statement
+        applies along any sequence of calls; nofuel excludes the model's own loop-counter status 99. ---- *)
+From MSP Require Model.Lzx Proofs.LzxSafe Proofs.LzxResume Props.OabSample.
+Theorem C08_lzx_decoder_resumable : forall rule L a b s i s1 i1 rc ic r2 i2,
+  LzxSafe.Core L s -> Lzx.err s = 0 -> LzxSafe.Dd s + (a + b) < 70368744177664 ->
+  ideal rule L (Lzx.decompress a s) i = (SVal (inr (tt, s1)), i1) ->
+  ideal rule L (Lzx.decompress (a + b) s) i = (rc, ic) -> LzxResume.nofuel rc ->
+  ideal rule L (Lzx.decompress b s1) i1 = (r2, i2) -> LzxResume.nofuel r2 ->
+  rc = r2 /\ ic = i2.
+Proof. exact LzxResume.decompress_resumable. Qed.
+Print Assumptions C08_lzx_decoder_resumable.
+Theorem C08_lzx_invariant_kept : forall L wb ri delta ref, 15 <= wb <= 25 ->
+  LzxSafe.InvL L (Lzx.lzx_init wb ri delta ref) /\
+  forall s i n st s' i', LzxSafe.InvL L s -> LzxSafe.Dd s + n < 70368744177664 -> Lzx.lzx_call L s i n = (st, s', i') -> LzxSafe.InvL L s'.
+Proof.
+  intros L wb ri delta ref Hw. split; [exact (proj1 (LzxSafe.init_invL L wb ri delta ref Hw))|].
+  intros s i n st s' i' HI Hb E. exact (proj1 (proj2 (LzxSafe.lzx_call_safeL L s i n st s' i' HI Hb E))).
+Qed.
+Print Assumptions C08_lzx_invariant_kept.
+(* non-vacuity: on the generated DELTA stream the first call succeeds from the initial state, and 10 + 50 bytes asked in two calls are the
+   60 bytes asked in one *)
+Example C08_lzx_sample : let n := N.of_nat (length OabSample.s_data) in
+  fst (Lzx.lzx_run 17 0 n true [] (OabSample.s_stream ++ OabSample.s_pad) [10; n - 10]) = [0; 0] /\
+  snd (Lzx.lzx_run 17 0 n true [] (OabSample.s_stream ++ OabSample.s_pad) [10; n - 10]) = snd (Lzx.lzx_run 17 0 n true [] (OabSample.s_stream ++ OabSample.s_pad) [n]).
+Proof. split; vm_compute; reflexivity. Qed.
